@@ -175,11 +175,14 @@ extern bg_vec_sz bg_scratch_vec_sz;
     struct {                                                                  \
       bg_bool hasPQ, hasQP; /* keys (G_P,G_Q), (G_Q,G_P); QP unused if P==Q */\
       bg_size restCount;    /* entries under other keys                   */  \
+      long restSum;         /* sum of the values under other keys, except a */\
+                            /* cell checked out for writing (numeric labels)*/\
     } s;                                                                      \
     T *valPQ, *valQP;     /* separate objects, see bg_adj                  */ \
   } bg_map_##TAG;                                                             \
   typedef struct {                                                            \
     bg_bool valid, has;                                                       \
+    bg_bool out;          /* checked out for writing: val not in restSum */   \
     T val;                                                                    \
     bg_edge key;                                                              \
     const bg_map_##TAG *from;                                                 \
